@@ -165,8 +165,13 @@ def parse_obs(text):
     return dict(dims=dims, vars=vs, attrs=kv['attrs'])
 
 
-def diff_obs(model_text, impl_text, ignore_unlim=False):
+def diff_obs(model_text, impl_text, ignore_unlim=False, hide=()):
+    """hide: variables whose `fill_value` attribute is not compared (it restates the mask, see observe)"""
     a, b = parse_obs(model_text), parse_obs(impl_text)
+    for side in (a, b):
+        for k in hide:
+            if k in side['vars']:
+                side['vars'][k]['attrs'] = '.'.join(x for x in side['vars'][k]['attrs'].split('.') if x != 'fill_value') or '-'
     if ignore_unlim:
         a['dims'] = {k: (v[0], 'f') for k, v in a['dims'].items()}
         b['dims'] = {k: (v[0], 'f') for k, v in b['dims'].items()}
